@@ -6,7 +6,7 @@ import re
 VERIF = os.path.dirname(os.path.dirname(os.path.abspath(__file__)))
 
 
-ROUNDS = """Ten rounds of independent seeding (sub-agents in scratch worktrees of /repo; they see the twenty property texts, the list of
+ROUNDS = """Eleven rounds of independent seeding (sub-agents in scratch worktrees of /repo; they see the twenty property texts, the list of
 earlier changes so that nothing is repeated, and nothing of /verif): `Cnn-A/B` and `Cnn-A2/B2` one agent per property (rounds 1, 2);
 `K01..K12` one agent per component (round 3); `S01..S10` per component with the instruction to damage what the recent `fix:` commits
 established without reverting them (round 4); `R01..R12` per property again, for the properties with the fewest changes so far
@@ -62,6 +62,14 @@ exactly its three exits - an extra exit on a cancelled context would report a fa
 snapshot as client-go hands it out (snapshot isolation; read-committed would let an acknowledged write be missing from a scan while
 the commit of its secondary keys in another region is on its way). Both of these need events INSIDE one engine call, which the
 harness cannot place: the facts are the tie, no failing input is found for them.
+Round 11 (`V01..V06`, per property for the six properties with the fewest changes so far - C06 C10 C12 C14 C04 C08 - with the
+instruction to prefer TWO COOPERATING SITES that each look fine alone; 2 of the changes delivered were missed at first) -> several
+watchers of different directories and a burst of writes that the sequencer hands to the hub as ONE batch (a filter that compacts the
+shared batch in place takes events from the other watchers; C05 `gen_shared_batch`, C06 `shared_batch_case`; V01-A); skipped
+directories up to the whole directory of the prefix (a compaction with nothing left to compact must still write its record; C08;
+V06-B). While reading the scanner for this round one seeder pointed at a genuine defect of the unchanged tree - the guard against
+lowering the compaction record held only when the record could be READ - which was reproduced, repaired (539af5f), modelled
+(KB.CompactFault) and proved (KB.Props.C08Fault); its reverse is `fixrevert-539af5f`.
 The table is regenerated from the `result.json` files.
 
 """
